@@ -163,6 +163,7 @@ func TestVerifReplayGetData(t *testing.T) {
 		"two-key list, only the second key (= b)": {{Elem: []*sdcpb.PathElem{{Name: "doublekey", Key: map[string]string{"key2": "b"}}}}},
 		"unknown path":                            {{Elem: []*sdcpb.PathElem{{Name: "nosuchthing"}}}},
 		"state data of a named (candidate) datastore, which holds none":      {ifPath("ethernet-1/1")},
+		"state data of the intended datastore, which holds none":             {ifPath("ethernet-1/1")},
 		"wildcard key, a leaf of every entry":                                {{Elem: []*sdcpb.PathElem{{Name: "interface", Key: map[string]string{"name": "*"}}, {Name: "description"}}}},
 		"wildcard inside a key value":                                        {{Elem: []*sdcpb.PathElem{{Name: "interface", Key: map[string]string{"name": "ethernet-1/1*"}}, {Name: "description"}}}},
 		"two-key list, wildcard for the first key":                           {{Elem: []*sdcpb.PathElem{{Name: "doublekey", Key: map[string]string{"key1": "*", "key2": "c"}}}}},
@@ -294,6 +295,10 @@ func TestVerifReplayGetData(t *testing.T) {
 					dataType = sdcpb.DataType_STATE
 					dstore = &sdcpb.DataStore{Type: sdcpb.Type_MAIN, Name: "cand"}
 				}
+				if strings.HasPrefix(rname, "state data of the intended") {
+					dataType = sdcpb.DataType_STATE
+					dstore = &sdcpb.DataStore{Type: sdcpb.Type_INTENDED, Owner: "owner1", Priority: 10}
+				}
 				err = d.Get(ctx, &sdcpb.GetDataRequest{Name: "dev1", Path: paths, DataType: dataType, Encoding: enc, Datastore: dstore}, out)
 			}()
 			cancel()
@@ -356,6 +361,12 @@ func TestVerifReplayGetData(t *testing.T) {
 				// a combination no store answers is refused, it does not pass for an empty answer
 				if err == nil || len(got) > 0 {
 					fmt.Printf("REPLAY-FAIL fn=%s clause=a_request_that_selects_no_store_is_refused input=%s why=err=%v, %d leaves returned\n", fn, in, err, len(got))
+				}
+				continue
+			}
+			if strings.HasPrefix(rname, "state data of the intended") {
+				if err == nil || len(got) > 0 {
+					fmt.Printf("REPLAY-FAIL fn=%s clause=intended_state_is_refused input=%s why=err=%v, %d leaves returned\n", fn, in, err, len(got))
 				}
 				continue
 			}
